@@ -254,12 +254,16 @@ Section Steps.
   (* the image of every item of the source bundle is an item of the image bundle *)
   Definition ImgOK (rl : rel) (p p' : id) (s : state) (m : memo) : Prop :=
     (forall i, In i (kids s0 rl p) -> exists i', In (i, i') m /\ In i' (kids s rl p')) /\
-    (forall i', In i' (kids s rl p') -> exists i, In (i, i') m /\ In i (kids s0 rl p)).
+    (forall i', In i' (kids s rl p') -> exists i, In (i, i') m /\ In i (kids s0 rl p)) /\
+    Forall2 (fun i i' => In (i, i') m) (kids s0 rl p) (kids s rl p').
+  Lemma forall2_mono {A B} (R1 R2 : A -> B -> Prop) : (forall a b, R1 a b -> R2 a b) -> forall l l', Forall2 R1 l l' -> Forall2 R2 l l'.
+  Proof. intros H l l' F. induction F; constructor; auto. Qed.
   Lemma imgok_stable rl : Stable (ImgOK rl).
   Proof.
-    intros x x' s m s2 m2 [H1 H2] Hx Hm [_ Hk]. split.
+    intros x x' s m s2 m2 [H1 [H2 H3]] Hx Hm [_ Hk]. split; [|split].
     - intros i Hi. destruct (H1 i Hi) as [i' [A B]]. exists i'. split; [apply Hm; exact A|]. rewrite Hk by exact Hx. exact B.
     - intros i' Hi'. rewrite Hk in Hi' by exact Hx. destruct (H2 i' Hi') as [i [A B]]. exists i. split; [apply Hm; exact A|exact B].
+    - rewrite Hk by exact Hx. revert H3. apply forall2_mono. intros a b H. apply Hm. exact H.
   Qed.
 
   Lemma forall2_in_l {A B} (R : A -> B -> Prop) l l' : Forall2 R l l' -> forall y, In y l' -> exists x, In x l /\ R x y.
@@ -323,11 +327,12 @@ Section Steps.
       + apply S2. left. reflexivity.
       + split; [match goal with |- next s <= next ?sf => assert (HnF : next sf = next s2) by exact Hn4; rewrite HnF end; lia|].
         intros r y Hy. rewrite HkF. replace (Nat.eqb y (next s)) with false by (symmetry; apply Nat.eqb_neq; lia). rewrite andb_false_r. reflexivity.
-      + split.
+      + split; [|split].
         * intros i Hi. destruct (forall2_in_r _ _ _ F2 i Hi) as [i' [Hi' [Hm _]]]. exists i'. split; [exact Hm|].
           rewrite HkF, rel_eqb_refl, Nat.eqb_refl. exact Hi'.
         * intros i' Hi'. rewrite HkF, rel_eqb_refl, Nat.eqb_refl in Hi'. destruct (forall2_in_l _ _ _ F2 i' Hi') as [i [Hi [Hm _]]].
           exists i. split; [exact Hm|exact Hi].
+        * rewrite HkF, rel_eqb_refl, Nat.eqb_refl. revert F2. apply forall2_mono. intros a0 b0 [H _]. exact H.
   Qed.
 End Steps.
 
